@@ -35,7 +35,8 @@ NodeOf(rep, p) == LET e == Rec(rep.e, p) IN
    d |-> IF p \in Keys(rep.f) THEN Rec(rep.f, p).d ELSE <<>>,
    t |-> IF IsLinkK(e.k) THEN e.alt ELSE <<>>,
    tk |-> IF e.k = "ld" THEN "dir" ELSE IF e.k = "lf" THEN "file" ELSE IF e.k = "l" THEN "none" ELSE "-",
-   mode |-> e.mode, uid |-> e.uid, gid |-> e.gid]
+   mode |-> e.mode, uid |-> e.uid, gid |-> e.gid,
+   rt |-> IF IsLinkK(e.k) THEN e.rel ELSE <<>>]      \* the relative text recorded with a link (characters); compared nowhere, see VfsJudge!TextSettled
 AbsOf(rep) == [fs |-> [p \in Keys(rep.e) |-> NodeOf(rep, p)], cwd |-> rep.cwd]
 \* relative link text stored with a link must be the navigation from the link's directory to the target
 RelC(t, b) == LET n == CHOOSE k \in 0..Len(t) : /\ k <= Len(b) /\ SubSeq(t, 1, k) = SubSeq(b, 1, k)
